@@ -604,8 +604,16 @@ func (c *client) Send(req *simpleRequest) {
 	select {
 	case <-c.quit:
 		req.SetResponse(newError(backendExited))
+		return
+	case c.pendingReqs <- req:
+	}
+
+	// The client may have quit, and drained its queues for the last time,
+	// while the request was being enqueued. Nobody would answer it then.
+	select {
+	case <-c.quit:
+		c.drainPendingRequests()
 	default:
-		c.pendingReqs <- req
 	}
 }
 
@@ -707,6 +715,18 @@ func (c *client) drainRequests() {
 		case req := <-c.pendingReqs:
 			req.SetResponse(newError(backendExited))
 		case req := <-c.processingReqs:
+			req.SetResponse(newError(backendExited))
+		default:
+			return
+		}
+	}
+}
+
+// drainPendingRequests fails the requests which have not been written yet.
+func (c *client) drainPendingRequests() {
+	for {
+		select {
+		case req := <-c.pendingReqs:
 			req.SetResponse(newError(backendExited))
 		default:
 			return
